@@ -264,6 +264,8 @@ class Elab:
                 if isinstance(x, Obj) and x.name is None:
                     self.bind_name(x, "%s[%d]" % (var, i))
             return
+        if isinstance(v, Op) and v.op == "Array" and len(v.args) == 1 and isinstance(v.args[0], ListV):
+            return self.bind_name(v.args[0], var)
         if not isinstance(v, Obj) or v.kind == "param":
             return
         if v.name is not None and not v.provisional:
@@ -1040,6 +1042,42 @@ class Elab:
                 return Const(None)
             if attr in ("before_entering", "after_entering", "before_leaving", "after_leaving") and args:
                 return Op(attr, (base, args[0]))
+        if isinstance(base, Obj) and base.cls == "Pattern" and attr in ("sub", "match") and "$pattern" in base.attrs:
+            import re as _re
+            pat = base.attrs["$pattern"].v
+            if attr == "match" and args and isinstance(args[0], Const):
+                mm = _re.match(pat, args[0].v)
+                if mm is None:
+                    return Const(None)
+                o = self.new_obj("Match", (), {}, n)
+                o.attrs["$groups"] = ListV([Const(g) for g in mm.groups()], True)
+                o.attrs["$group0"] = Const(mm.group(0))
+                return o
+            if attr == "sub" and len(args) == 2 and isinstance(args[1], Const) and isinstance(args[1].v, str):
+                repl = args[0]
+                if isinstance(repl, Const):
+                    return Const(_re.sub(pat, repl.v, args[1].v))
+                if isinstance(repl, Func):
+                    def cb(mm):
+                        o = self.new_obj("Match", (), {}, n)
+                        o.attrs["$groups"] = ListV([Const(g) for g in mm.groups()], True)
+                        o.attrs["$group0"] = Const(mm.group(0))
+                        r = self.call_func(repl, [o], {}, n)
+                        if not (isinstance(r, Const) and isinstance(r.v, str)):
+                            raise ValueError("non-constant regex replacement")
+                        return r.v
+                    try:
+                        return Const(_re.sub(pat, cb, args[1].v))
+                    except ValueError:
+                        pass
+        if isinstance(base, Obj) and base.cls == "Match":
+            if attr == "groups":
+                return base.attrs["$groups"]
+            if attr == "group":
+                if not args or (isinstance(args[0], Const) and args[0].v == 0):
+                    return base.attrs["$group0"]
+                if isinstance(args[0], Const) and isinstance(args[0].v, int):
+                    return base.attrs["$groups"].items[args[0].v - 1]
         # methods of repo instances / classes ------------------------------------------------------
         if isinstance(base, Obj) and base.kind == "inst":
             if attr in base.attrs and isinstance(base.attrs[attr], Func):
@@ -1086,6 +1124,20 @@ class Elab:
             if isinstance(base, Sym) and not base.path.startswith("$") and (last[:1].isupper() or last in PRIM_HINT) \
                     and last not in EXPR_CTORS and base.path.split(".")[0] not in self.known_value_roots(env):
                 return self.make_prim(last, args, kwargs, n)
+            if isinstance(base, Sym) and base.path == "re" and attr in ("match", "fullmatch", "search") and len(args) >= 2 \
+                    and all(isinstance(a, Const) and isinstance(a.v, str) for a in args[:2]):
+                import re as _re
+                mm = getattr(_re, attr)(args[0].v, args[1].v)
+                if mm is None:
+                    return Const(None)
+                o = self.new_obj("Match", (), {}, n)
+                o.attrs["$groups"] = ListV([Const(g) for g in mm.groups()], True)
+                o.attrs["$group0"] = Const(mm.group(0))
+                return o
+            if isinstance(base, Sym) and base.path == "re" and attr == "compile" and args and isinstance(args[0], Const):
+                o = self.new_obj("Pattern", (), {}, n)
+                o.attrs["$pattern"] = args[0]
+                return o
             if isinstance(base, Sym) and base.path in ("math", "np", "numpy"):
                 return self.call_builtin(attr, args, kwargs, n, env, qual=base.path)
             if isinstance(base, Sym) and base.path in ("roundrobin", "stream", "wishbone", "axi", "csr", "dfi"):
